@@ -1,5 +1,5 @@
 From Coq Require Import ZArith List Bool.
-From Coba Require Import Common.Sx C12.Model.
+From Coba Require Import Common.Sx C12.Model C12.ModelArff.
 Import ListNotations.
 Open Scope Z_scope.
 Definition zss (x : sx) : list (list Z) := map as_zs (as_l x).
@@ -16,5 +16,6 @@ Definition run (x : sx) : sx :=
                                  | Raise => [Z_ (-1)]
                                  end) (zss a))
   | 4 => L_ (map (fun l => of_zss (csv_parse l)) (zss a))
+  | 5 => of_zss (arff_parse (as_z a) (as_zs (nth_sx 2 x)))
   | _ => err 99
   end.
